@@ -239,7 +239,7 @@ def worker(ctx, job):
 
 
 def run(ctx):
-    n = ctx.pick(250, 6000)
+    n = ctx.pick(250, 15000)
     jobs = [{"n": n, "loop_every": 10, "budget": ctx.pick(25, 330)} for _ in range(16)]
     ctx.shard(jobs, timeout=ctx.pick(60, 400))
     total = 16 * n
